@@ -21,7 +21,32 @@ sys.path.insert(0, "/repo")
 from harness import console as C                       # noqa: E402
 from harness.executor import run_script                # noqa: E402
 
+import harness.executor as _X                          # noqa: E402
+import pyairtouch.comms.socket as _S                   # noqa: E402
+
 E = lambda e, n: {"enum": e, "name": n}                # noqa: E731
+
+# Observation only: which retry policy the API hands to the socket for the frame of each call (C02
+# policy part).  The current call id is noted when the executor starts a call, the policy when the
+# client submits a message.
+_CUR = [None]
+POLICIES = {}
+_orig_op_call = _X.World.op_call
+_orig_send = _S.AirTouchSocket.send
+
+
+def _op_call(self, op):
+    _CUR[0] = op["id"]
+    return _orig_op_call(self, op)
+
+
+async def _send(self, message, retry_policy):
+    POLICIES.setdefault(_CUR[0], []).append([int(retry_policy.max_retries), round(retry_policy.max_lifetime * 1000)])
+    return await _orig_send(self, message, retry_policy)
+
+
+_X.World.op_call = _op_call
+_S.AirTouchSocket.send = _send
 
 
 def tbytes(t):
@@ -219,14 +244,17 @@ def feed_desc(proto, f):
 def one_case(proto, seed):
     rng = random.Random(seed)
     inst = installation(proto, rng)
+    fed = answers(inst) + extra_frames(inst, rng)
+    return run_case(proto, inst, fed, calls_for(inst, rng), seed)
+
+
+def run_case(proto, inst, fed, calls, seed):
     script = [{"op": "sub", "who": "c", "kind": "connection", "target": "socket"},
               {"op": "call", "id": 1, "target": "airtouch", "method": "init"}, {"op": "quiesce"},
               {"op": "resolve", "how": "ok"}, {"op": "quiesce"}]
-    fed = answers(inst) + extra_frames(inst, rng)
     for f in fed:
         script += [{"op": "feed", "b": f}, {"op": "quiesce"}]
     script.append({"op": "snapshot", "tag": "s"})
-    calls = calls_for(inst, rng)
     for i, ((tk, tn, owner), method, args, kwargs) in enumerate(calls):
         d = {"op": "call", "id": 100 + i, "target": "airtouch" if tk == "airtouch" else f"{tk}:{tn}", "method": method}
         if args:
@@ -234,9 +262,11 @@ def one_case(proto, seed):
         if kwargs:
             d["kwargs"] = kwargs
         script += [d, {"op": "quiesce"}]
-    script += [{"op": "call", "id": 9999, "target": "airtouch", "method": "shutdown"}, {"op": "quiesce"},
+    script += [{"op": "call", "id": 99999, "target": "airtouch", "method": "shutdown"}, {"op": "quiesce"},
                {"op": "resolve_all", "how": "ok"}, {"op": "quiesce"}]
+    POLICIES.clear()
     tr, err = run_script(script, proto=proto, target="client")
+    policies = {k: list(v) for k, v in POLICIES.items()}
     if err:
         raise SystemExit(f"seed {seed} {proto}: {err}")
     model = None
@@ -245,7 +275,7 @@ def one_case(proto, seed):
     for e in tr:
         if e["e"] == "snapshot":
             model = e["model"]
-        elif e["e"] == "call" and 100 <= e["id"] < 9999:
+        elif e["e"] == "call" and 100 <= e["id"] < 99999:
             cur = e["id"]
             per[cur] = {"bytes": [], "res": "none"}
         elif e["e"] == "call":
@@ -261,7 +291,8 @@ def one_case(proto, seed):
         out_calls.append({"call": {"id": 100 + i, "tk": tk, "tn": tn, "owner": owner,
                                    "target": "airtouch" if tk == "airtouch" else f"{tk}:{tn}",
                                    "method": method, "args": args, "kwargs": kwargs},
-                          "res": rec["res"], "frames": split_frames(proto, rec["bytes"])})
+                          "res": rec["res"], "frames": split_frames(proto, rec["bytes"]),
+                          "policies": policies.get(100 + i, [])})
     return {"proto": proto, "seed": seed, "frames": [feed_desc(proto, f) for f in fed],
             "model": model["air_conditioners"], "calls": out_calls}
 
